@@ -374,6 +374,13 @@ Section ColorIndexProof.
 
   (** Image-level theorem; hypothesis: every pixel's index is in range for the
       packing and looks up to the pixel itself. *)
+  Lemma rows_app_first {A} (n k : nat) (a b : list A) :
+    length a = k -> rows (S n) k (a ++ b) = a :: rows n k b.
+  Proof.
+    intros H. cbn [rows]. rewrite firstn_app, skipn_app, <- H, Nat.sub_diag, firstn_all, skipn_all.
+    cbn [firstn skipn app]. now rewrite app_nil_r.
+  Qed.
+
   Theorem inv_color_index_fwd_gen : forall (h : nat) (img : list px),
     length img = (h * w)%nat ->
     Forall (fun p => 0 <= find p < bmod wb /\ look (find p) = p) img ->
@@ -381,26 +388,17 @@ Section ColorIndexProof.
   Proof.
     intros h. induction h as [|h IH]; intros img Hlen Himg.
     - destruct img; [reflexivity|cbn [length] in Hlen; lia].
-    - unfold color_index_fwd. cbn [rows flat_map].
-      fold (color_index_fwd find wb w h (skipn w img)).
-      unfold color_index_inv.
-      assert (Hrl : length (firstn w img) = w) by (rewrite firstn_length; lia).
-      (* the first packed row is exactly the first [pw] pixels *)
-      set (pr0 := pack_row wb w (map find (firstn w img))).
-      assert (Hpl : length pr0 = pw wb w) by apply pack_row_length.
-      destruct (pw wb w) as [|pwn] eqn:Epw.
-      { pose proof pw_covers as Hc. rewrite Epw in Hc. lia. }
-      cbn [rows flat_map].
-      rewrite <- Epw.
-      replace (firstn (pw wb w) (pr0 ++ color_index_fwd find wb w h (skipn w img))) with pr0
-        by (rewrite firstn_app, <- Hpl, Nat.sub_diag, firstn_all; cbn [firstn]; now rewrite app_nil_r).
-      replace (skipn (pw wb w) (pr0 ++ color_index_fwd find wb w h (skipn w img)))
-        with (color_index_fwd find wb w h (skipn w img))
-        by (rewrite skipn_app, <- Hpl, Nat.sub_diag, skipn_all; reflexivity).
+    - assert (Hrl : length (firstn w img) = w) by (rewrite firstn_length; lia).
+      assert (Ef : color_index_fwd find wb w (S h) img =
+                   pack_row wb w (map find (firstn w img)) ++ color_index_fwd find wb w h (skipn w img))
+        by reflexivity.
+      rewrite Ef. unfold color_index_inv at 1.
+      rewrite rows_app_first by apply pack_row_length.
+      cbn [flat_map].
       fold (color_index_inv look wb w h (color_index_fwd find wb w h (skipn w img))).
       rewrite <- (firstn_skipn w img) in Himg. apply Forall_app in Himg. destruct Himg as [H1 H2].
-      rewrite IH by (try rewrite skipn_length; try assumption; lia).
-      unfold pr0. rewrite unpack_pack_row.
+      rewrite IH; [|rewrite skipn_length; lia|exact H2].
+      rewrite unpack_pack_row.
       + rewrite map_map.
         rewrite <- (firstn_skipn w img) at 3. f_equal.
         clear - H1. induction H1 as [|p tl [_ Hp] _ IHl]; cbn [map]; [reflexivity|]. now rewrite Hp, IHl.
